@@ -33,8 +33,8 @@ EXTENDS Integers, Sequences, FiniteSets, TLC
 
 Huge == -1
 
-Max(a, c) == IF a >= c THEN a ELSE c
-Min(a, c) == IF a <= c THEN a ELSE c
+Max2(a, c) == IF a >= c THEN a ELSE c
+Min2(a, c) == IF a <= c THEN a ELSE c
 
 (* ---------------------------- byte fields ------------------------------ *)
 Slice(b, o, n) == [i \in 1 .. n |-> b[o + i - 1]]
@@ -221,7 +221,7 @@ DecodeTopo(b, p, n) ==
   LET vals  == IF val # 0 THEN [i \in 1 .. count |-> val] ELSE [i \in 1 .. count |-> UE(b, d + (i - 1) * venc, venc)]
       vbytes == IF val # 0 THEN 0 ELSE count * venc
       sane  == vbytes <= dn /\ \A i \in 1 .. count : vals[i] # Huge /\ vals[i] <= dn
-      start[i \in 0 .. count] == IF i = 0 THEN 0 ELSE Min(start[i - 1] + vals[i], dn + 1)   \* handles before item i+1 (saturating)
+      start[i \in 0 .. count] == IF i = 0 THEN 0 ELSE Min2(start[i - 1] + vals[i], dn + 1)   \* handles before item i+1 (saturating)
       startv == [i \in 0 .. count |-> IF val # 0 THEN i * val ELSE start[i]]
   IN
   IF ~sane THEN [kind |-> "BAD", why |-> "TopoSize", strict |-> TRUE]
@@ -351,7 +351,7 @@ ApplyChunk(b, st, c) ==
          ELSE LET vs == DecodeValues(b, c.o, c.n, e.ty, c.count) IN
          IF IsBadSeq(vs) THEN Fail(st, "PropSize", TRUE)
          ELSE LET old == st.vals[c.idx + 1]
-                  new == [i \in 1 .. Max(Len(old), c.first + c.count) |->
+                  new == [i \in 1 .. Max2(Len(old), c.first + c.count) |->
                             IF i > c.first /\ i <= c.first + c.count THEN vs[i - c.first]
                             ELSE IF i <= Len(old) THEN old[i] ELSE e.def]
               IN [st EXCEPT !.vals[c.idx + 1] = new]
